@@ -29,6 +29,7 @@ type Engine struct {
 	ghosts             map[string]*GhostField
 	lemmas             []*Lemma
 	axioms             []*Clause
+	axiomPkg           map[*Clause]string
 	heapSorts          map[string]string
 	typeIDs            map[string]int
 	typeByID           []types.Type
@@ -63,7 +64,7 @@ func loadEngine(repo string, pkgPatterns []string, extraContractFiles []string) 
 	}
 	prog, spkgs := ssautil.Packages(pkgs, ssa.GlobalDebug)
 	e := &Engine{prog: prog, pkgs: map[string]*ssa.Package{}, tpkgs: map[string]*packages.Package{}, contracts: map[string]*Contract{},
-		contractPkg: map[string]string{}, specFuncs: map[string]*SpecFunc{}, ghosts: map[string]*GhostField{}, heapSorts: map[string]string{},
+		contractPkg: map[string]string{}, axiomPkg: map[*Clause]string{}, specFuncs: map[string]*SpecFunc{}, ghosts: map[string]*GhostField{}, heapSorts: map[string]string{},
 		typeIDs: map[string]int{}, inlineOverContract: map[string]bool{}, privCache: map[*ssa.Function]map[ssa.Value]bool{}, lines: map[string][]string{}, scan: map[string]int{},
 		noInline: map[string]bool{}, specDeclaring: map[string]bool{}, structDecls: map[string]string{}, constLen: map[string]int64{}}
 	for i, sp := range spkgs {
@@ -143,7 +144,12 @@ func (e *Engine) addContractFile(file, pkgPath string) error {
 		l.Pkg = pkgPath
 		e.lemmas = append(e.lemmas, l)
 	}
-	e.axioms = append(e.axioms, cf.Axioms...)
+	for _, ax := range cf.Axioms {
+		// an axiom of a package's contract file speaks about that package's names: it is assumed
+		// for the functions of that package only (axioms of the dependency files: everywhere)
+		e.axioms = append(e.axioms, ax)
+		e.axiomPkg[ax] = pkgPath
+	}
 	return nil
 }
 
@@ -492,6 +498,9 @@ func (e *Engine) verifyFunction(key string) (res *FuncResult) {
 		env.vars[l.Name] = v
 	}
 	for _, ax := range e.axioms {
+		if p := e.axiomPkg[ax]; p != "" && p != fnPkgPath(f.fn) {
+			continue
+		}
 		c.assume(f.evalClause(env, ax))
 		c.assumed["axiom: "+ax.Text] = true
 	}
@@ -679,4 +688,20 @@ func relPath(p string) string {
 		return r
 	}
 	return p
+}
+
+// fnPkgPath is the import path of the package a function (or an instance of a generic function, or
+// a closure) is declared in.
+func fnPkgPath(fn *ssa.Function) string {
+	for fn != nil {
+		if fn.Pkg != nil && fn.Pkg.Pkg != nil {
+			return fn.Pkg.Pkg.Path()
+		}
+		if o := fn.Origin(); o != nil && o != fn {
+			fn = o
+			continue
+		}
+		fn = fn.Parent()
+	}
+	return ""
 }
